@@ -466,6 +466,12 @@ class Machine:
         if lin:
             compute_all = step["all"] or not self.diff_ins
             execute = step["exe"] or self.last_key != kx
+            if not execute and getattr(self, "cleared_since_call", False) and self.tol > 0.0 and self.kind in FULL:
+                # linearize(execute=False) right after cache.clear() stores a Jacobian-only entry; with a tolerance that
+                # entry then shadows every later complete entry within the tolerance (known finding C05-F2)
+                self.flags["jacobian_only_entry_after_clear_with_tolerance"] += 1
+                if ctx.known("jacobian_only_entry_shadows_with_tolerance"):
+                    execute = True
             if compute_all:
                 req_in, req_out = list(self.names), [n for n, _ in OUT_SPECS]
             else:
@@ -553,6 +559,7 @@ class Machine:
             self.flags["linearize"] += 1
         self.remember(x)
         self.last_key = kx
+        self.cleared_since_call = False
 
     def diff(self, step):
         self.diff_ins = sorted(set(self.diff_ins) | set(step["ins"]))
@@ -576,6 +583,7 @@ class Machine:
         self.ctx.check(len(cache) == 0, "clear", f"len(cache)={len(cache)} after clear()")
         del self.log[:]
         self.flags["clear"] += 1
+        self.cleared_since_call = True
 
     def reopen(self, step):
         if self.kind != "hdf5":
